@@ -22,6 +22,9 @@ pub const ENTRIES: &[&str] = &[
     "ArcBorrow::with_arc(clone)",
     "Arc::with_raw_offset_arc(clone)",
     "Arc::with_raw_offset_arc(clone_arc)",
+    // arc-swap support (only in builds with that feature): ArcSwap::load_full / Guard::into_inner call this
+    "RefCnt::inc(Arc)",
+    "RefCnt::inc(ThinArc)",
 ];
 
 trait Tr {
@@ -130,12 +133,12 @@ pub fn child(args: &[String]) {
     let u1: ArcUnion<u64, u8> = ArcUnion::from_first(Arc::new(7));
     let u2: ArcUnion<u8, u64> = ArcUnion::from_second(Arc::new(8));
     let (addr, c0) = match entry.as_str() {
-        "Arc<T>::clone" | "ArcBorrow::clone_arc" | "ArcBorrow::with_arc(clone)" | "Arc::with_raw_offset_arc(clone)" | "Arc::with_raw_offset_arc(clone_arc)" => counter_addr(|| Arc::count(&a)),
+        "RefCnt::inc(Arc)" | "Arc<T>::clone" | "ArcBorrow::clone_arc" | "ArcBorrow::with_arc(clone)" | "Arc::with_raw_offset_arc(clone)" | "Arc::with_raw_offset_arc(clone_arc)" => counter_addr(|| Arc::count(&a)),
         "Arc<[T]>::clone" => counter_addr(|| Arc::count(&s)),
         "Arc<str>::clone" => counter_addr(|| Arc::count(&st)),
         "Arc<dyn>::clone" => counter_addr(|| Arc::count(&d)),
         "Arc<HeaderSlice>::clone" => counter_addr(|| Arc::count(&hs)),
-        "ThinArc::clone" | "ThinArc::with_arc(clone)" => counter_addr(|| t.with_arc(|x| Arc::count(x))),
+        "ThinArc::clone" | "ThinArc::with_arc(clone)" | "RefCnt::inc(ThinArc)" => counter_addr(|| t.with_arc(|x| Arc::count(x))),
         "OffsetArc::clone" | "OffsetArc::clone_arc" | "OffsetArc::with_arc(clone)" => counter_addr(|| o.with_arc(|x| Arc::count(x))),
         "ArcUnion(first)::clone" => counter_addr(|| u1.as_first().unwrap().with_arc(|x| Arc::count(x))),
         "ArcUnion(second)::clone" => counter_addr(|| u2.as_second().unwrap().with_arc(|x| Arc::count(x))),
@@ -185,6 +188,14 @@ pub fn child(args: &[String]) {
         "ArcBorrow::with_arc(clone)" => a.borrow_arc().with_arc(|x| std::mem::forget(x.clone())),
         "Arc::with_raw_offset_arc(clone)" => a.with_raw_offset_arc(|x| std::mem::forget(x.clone())),
         "Arc::with_raw_offset_arc(clone_arc)" => a.with_raw_offset_arc(|x| std::mem::forget(x.clone_arc())),
+        #[cfg(feature = "cfg_all")]
+        "RefCnt::inc(Arc)" => {
+            let _ = <Arc<u64> as arc_swap::RefCnt>::inc(&a);
+        }
+        #[cfg(feature = "cfg_all")]
+        "RefCnt::inc(ThinArc)" => {
+            let _ = <ThinArc<u8, u16> as arc_swap::RefCnt>::inc(&t);
+        }
         _ => unreachable!(),
     }));
     inj::ARMED.store(false, Ordering::Relaxed);
@@ -207,6 +218,9 @@ pub fn run(_tier: &str) -> Vec<Grid> {
     let exe = std::env::current_exe().unwrap();
     let mut jobs = vec![];
     for e in ENTRIES {
+        if e.starts_with("RefCnt") && !cfg!(feature = "cfg_all") {
+            continue;
+        }
         for s in starts {
             jobs.push((*e, s));
         }
@@ -268,7 +282,7 @@ pub fn run(_tier: &str) -> Vec<Grid> {
     }
     // ---- interference grid: another clone lands before the k-th atomic step of the clone under test
     let mut gi = Grid::new(if cfg == "std" { "c16.interference.std" } else { "c16.interference.no_std" }, "starting count in {isize::MAX-1, isize::MAX} x clone entry point x position k in 1..=3 at which a second clone of the same allocation is interleaved (before the k-th atomic step): whenever any increment finds the count already past isize::MAX the process must abort; otherwise both clones return and add one each");
-    let entries: Vec<&str> = ENTRIES.iter().copied().filter(|e| !matches!(*e, "Arc<[T]>::clone" | "Arc<str>::clone" | "Arc<dyn>::clone" | "Arc<HeaderSlice>::clone")).collect();
+    let entries: Vec<&str> = ENTRIES.iter().copied().filter(|e| !matches!(*e, "Arc<[T]>::clone" | "Arc<str>::clone" | "Arc<dyn>::clone" | "Arc<HeaderSlice>::clone") && (cfg!(feature = "cfg_all") || !e.starts_with("RefCnt"))).collect();
     let mut jobs2 = vec![];
     for e in &entries {
         for s in [im - 1, im] {
